@@ -60,6 +60,10 @@ type Recorder struct {
 	OnPushed func(desc ocispec.Descriptor)
 	// Quiet disables event recording (dry runs).
 	Heavy bool // heavier latency
+	// SlowCallbacks: callbacks take as long as storage operations do
+	SlowCallbacks bool
+	// SlowSkipped: extra time an OnCopySkipped callback takes (with SlowCallbacks)
+	SlowSkipped time.Duration
 }
 
 // NewRecorder creates a recorder. keyOf maps fault node ids to triple keys.
@@ -445,6 +449,13 @@ func (r *Recorder) Callback(ctx context.Context, name string, desc ocispec.Descr
 	k := Key(desc)
 	r.event("cb", name, k, "begin", false)
 	err := r.Point(ctx, "cb", name, k, "before")
+	if r.SlowCallbacks && err == nil {
+		// the caller's callback takes its time (a progress display, a log write)
+		r.latency("cb", name, k)
+		if name == "OnCopySkipped" && r.SlowSkipped > 0 {
+			time.Sleep(r.SlowSkipped)
+		}
+	}
 	r.event("cb", name, k, "end", err != nil)
 	return err
 }
